@@ -13,6 +13,32 @@ def replay(spec):
     import warnings
     warnings.simplefilter("ignore")
     from bioscrape.types import Model
+    if spec.get("kind") == "modes":
+        # users of the evaluator: a general rate law in its four modes, a general assignment rule with and without a volume
+        Mm = Model(species=["A", "B"], parameters=[("k", 1.5)],
+                   reactions=[(["A"], ["B"], "general", {"rate": "k*A*volume + t"})],
+                   rules=[("assignment", {"equation": "B = k*A + volume"}, "repeated")])
+        p = Mm.get_propensities()[0]
+        idx = Mm.get_species2index()
+        pv = np.array(Mm.get_parameter_values(), dtype=float)
+        bad = []
+        for (A, B, t, V) in ((2.0, 1.0, 0.5, 3.0), (7.0, 0.0, 0.0, 0.4), (1.0, 4.0, 2.5, 6.0)):
+            st = np.zeros(2)
+            st[idx["A"]], st[idx["B"]] = A, B
+            got = dict(plain=p.py_get_propensity(st.copy(), pv, t), stochastic=p.py_get_stochastic_propensity(st.copy(), pv, t),
+                       volume=p.py_get_volume_propensity(st.copy(), pv, V, t), stochastic_volume=p.py_get_stochastic_volume_propensity(st.copy(), pv, V, t))
+            want = dict(plain=1.5 * A + t, stochastic=1.5 * A + t, volume=1.5 * A * V + t, stochastic_volume=1.5 * A * V + t)
+            for m_ in want:
+                if abs(got[m_] - want[m_]) > 1e-9:
+                    bad.append("rate 'k*A*volume + t' at A=%s t=%s V=%s in %s mode: %r, the written law gives %r" % (A, t, V, m_, got[m_], want[m_]))
+            from bioscrape.simulator import ModelCSimInterface
+            itf = ModelCSimInterface(Mm)
+            s1, s2 = st.copy(), st.copy()
+            itf.py_apply_repeated_rules(s1, t, True)
+            itf.py_apply_repeated_volume_rules(s2, V, t, True)
+            if abs(s1[idx["B"]] - (1.5 * A + 1)) > 1e-9 or abs(s2[idx["B"]] - (1.5 * A + V)) > 1e-9 or s1[idx["A"]] != A or s2[idx["A"]] != A:
+                bad.append("rule 'B = k*A + volume' at A=%s V=%s: without volume %s, with volume %s" % (A, V, s1.tolist(), s2.tolist()))
+        return {"reproduced": bool(bad), "observed": bad[:3], "expected": "'volume' reads 1 without a volume and V with one"}
     text = spec["text"]
     if spec.get("kind") == "growth":
         # state-dependent growth law: one volume step = V*(exp(rate(state, t)*dt) - 1) with the written rate
